@@ -104,6 +104,8 @@ def gen_record(rng, tag, cls=None, status=None, profile=None, tame=False):
     if cls in ("file", "exec", "link"):
         op = {"exec": "exec", "link": "link"}.get(cls) or rng.choice([o for o in FILE_OPS if o not in ("exec", "link")])
         mask = {"exec": "x", "link": "l"}.get(cls) or rng.choice([m for m in MASKS if m not in ("x", "l")])
+        if cls == "link" and rng.random() < 0.2:
+            mask = "k"        # a lock taken through a hard link: operation="link" with another mask than l (seen in real audit logs)
         f += [("operation", op)]
         if rng.random() < 0.7 or op == "chown":
             f.append(("class", "file"))      # (without class= the tool maps a record by its operation; chown is not in that table)
